@@ -15,6 +15,7 @@ import StathamModel.Props.C18
 import StathamModel.Lemmas.ReprNames
 import StathamModel.Lemmas.AnnotNames
 import StathamModel.Lemmas.EvalClass
+import StathamModel.Lemmas.ModuleExec
 import StathamModel.Tie
 namespace Statham.C02
 open Statham
@@ -279,7 +280,7 @@ theorem C02_class_statement_rebuilds (env : String → Option Elem) (n : String)
     (addI cont : Option Elem) (props pats : List (Key × Elem)) (addP pn : Option Elem) (deps : List (Key × Elem)) (els : List Elem)
     (ok : ClassOK ⟨kw, items, addI, cont, props, pats, addP, pn, deps, els⟩)
     (hi : WFL env items) (ha : WFO env addI) (hc : WFO env cont) (hp : WFK env props) (hpt : WFK env pats)
-    (hap : WFO env addP) (hpn : WFO env pn) (hd : WFK env deps) (he : WFL env els) :
+    (hap : WFO env addP) (hpn : WFO env pn) (hd : WFD env deps) (he : WFL env els) :
     evalClassDef env (classDef (.mk (.object n) kw items addI cont props pats addP pn deps els)) =
       some (.mk (.object n) kw items addI cont props pats addP pn deps els) :=
   evalClassDef_classDef env n kw items addI cont props pats addP pn deps els ok hi ha hc hp hpt hap hpn hd he
@@ -291,6 +292,23 @@ open Statham.PyEval in
 theorem C02_module_executes (cs : List Elem) (env : String → Option Elem) (h : ChainOK env cs) :
     execClasses env (cs.map classDef) = some (cs.map fun c => (objName c.cls, c)) :=
   execClasses_ok cs env h
+
+open Statham.PyEval in
+/-- **every module the generator model emits from well-formed trees executes back to its classes.**  `ModuleOK`: one class
+    per name, none called `NotPassed`, classes in the form their statement determines, every other element in the form its
+    constructor leaves it in.  No hypothesis about the order: that each statement finds its classes already declared is
+    derived (orderer soundness `C11_declared_after_dependencies` + adequacy of its search), for trees of any size. -/
+theorem C02_emitted_module_executes (els : List Elem) (m : PyModule) (h : emitModule els = .ok m) (ok : ModuleOK els) :
+    ∃ cs : List Elem, m.classes = cs.map classDef ∧
+      execClasses (fun _ => none) m.classes = some (cs.map fun c => (objName c.cls, c)) := by
+  obtain ⟨order, ho, hc⟩ := classes_follow_order els m h
+  refine ⟨order.filterMap (lookupClass els), ?_, ?_⟩
+  · rw [hc, List.map_filterMap]
+    rfl
+  · have hchain := chainOK_of_module els ok order ho order [] (fun _ => none) (by simp) (by intro d _ hd; cases hd)
+    have : m.classes = (order.filterMap (lookupClass els)).map classDef := by rw [hc, List.map_filterMap]; rfl
+    rw [this]
+    exact C02_module_executes _ _ hchain
 
 namespace Sample
 open Statham.PyEval
@@ -307,8 +325,37 @@ def post : Elem :=
 
 /-- the hypotheses are met by a two-class module in which the second class refers to the first from two places -/
 example : ChainOK (fun _ => none) [tag, post] := by
-  simp [ChainOK, DeclOK, WF, WFL, WFO, WFK, tag, post, NodeOK, Elem.leaf, Elem.compose, objName, Elem.cls]
+  simp [ChainOK, DeclOK, WF, WFL, WFO, WFK, WFD, tag, post, NodeOK, Elem.leaf, Elem.compose, objName, Elem.cls]
   refine ⟨?_, ?_, ?_⟩ <;> constructor <;> simp [BoundKey, PatKey, DepOK, Key.src]
+
+def mini : Elem :=
+  .mk (.object "Mini") { hasProps := true } [] none none [({ name := "tag", required := true, source := some "tag" }, tag)] [] none none [] []
+
+/-- ... and `ModuleOK` by the trees a small module is generated from (so `C02_emitted_module_executes` applies to it) -/
+example : ModuleOK [mini] := by
+  have hoc : objectClasses [mini] = [mini, tag] := rfl
+  have hpool : [mini] ++ ([mini].map descendants).flatten = [mini, tag, Elem.leaf .string { maxLength := some (.int 8) }] := rfl
+  constructor
+  · intro a ha b hb hn
+    rw [hoc] at ha hb
+    simp only [List.mem_cons, List.mem_nil_iff, or_false] at ha hb
+    rcases ha with rfl | rfl <;> rcases hb with rfl | rfl <;> first | rfl | (exfalso; revert hn; decide)
+  · intro c hc
+    rw [hoc] at hc
+    simp only [List.mem_cons, List.mem_nil_iff, or_false] at hc
+    rcases hc with rfl | rfl <;> decide
+  · intro c hc
+    rw [hoc] at hc
+    simp only [List.mem_cons, List.mem_nil_iff, or_false] at hc
+    rcases hc with rfl | rfl <;>
+      (constructor <;> simp [stOf, tag, mini, BoundKey, PatKey, DepOK, Key.src])
+  · intro d hd hno
+    rw [hpool] at hd
+    simp only [List.mem_cons, List.mem_nil_iff, or_false] at hd
+    rcases hd with rfl | rfl | rfl
+    · simp [mini, isObjectClass, Elem.cls] at hno
+    · simp [tag, isObjectClass, Elem.cls] at hno
+    · simp [NodeOK, stOf, Elem.leaf, Elem.cls]
 
 /-- the executable form the driver reports, evaluated in the kernel on the same module -/
 example : execBack [post] = true := by decide +kernel
